@@ -370,6 +370,10 @@ def ba_decode(ip, args, kwargs, node):
 def b_frozenset(ip, args, kwargs, node):
     if not args:
         return VTuple([])
+    if isinstance(args[0], VSet):
+        ref = ip.st.new_ref()
+        ip.st.heap[(ref, "set")] = ip.st.heap[(args[0].ref, "set")]
+        return VSet(ref, args[0].elem)
     return VTuple(ip.iterate(args[0]))
 
 
